@@ -18,6 +18,11 @@ pub struct EnvPeer {
 
 pub struct Env {
     pub peers: Vec<EnvPeer>,
+    /// blocks below each leaf that `grow` keeps back (for a final phase in which every peer announces
+    /// blocks the client cannot know yet, so that it has to ask for proofs)
+    pub reserve: u64,
+    /// peers disconnected because the client banned them
+    pub bans: u64,
 }
 
 pub fn true_attrs() -> Value {
@@ -37,7 +42,7 @@ impl Env {
                 server: HonestPeer::new(*tip),
             })
             .collect();
-        Env { peers }
+        Env { peers, reserve: 0, bans: 0 }
     }
 
     pub fn connect(&mut self, sim: &mut Sim, i: usize) {
@@ -59,7 +64,22 @@ impl Env {
         let banned = sim.last_bans.clone();
         for i in 0..self.peers.len() {
             if banned.contains(&self.peers[i].idx) && self.peers[i].connected {
+                self.bans += 1;
                 self.disconnect(sim, i);
+            }
+        }
+    }
+
+    /// Keeps the last `r` blocks of every leaf back (and pulls tips that are already beyond back; call before
+    /// the first event).
+    pub fn set_reserve(&mut self, sim: &Sim, r: u64) {
+        self.reserve = r;
+        for ep in self.peers.iter_mut() {
+            let cap = sim.chain.blocks[ep.leaf].num.saturating_sub(r).max(1);
+            if sim.chain.blocks[ep.server.tip].num > cap {
+                if let Some(a) = sim.chain.ancestor_at(ep.server.tip, cap) {
+                    ep.server.tip = a;
+                }
             }
         }
     }
@@ -70,13 +90,14 @@ impl Env {
 
     /// The peer's chain grows by up to `k` blocks towards its leaf. Returns whether it grew.
     pub fn grow(&mut self, sim: &Sim, i: usize, k: u64) -> bool {
+        let reserve = self.reserve;
         let ep = &mut self.peers[i];
         let cur = sim.chain.blocks[ep.server.tip].num;
-        let leaf_num = sim.chain.blocks[ep.leaf].num;
+        let leaf_num = sim.chain.blocks[ep.leaf].num.saturating_sub(reserve);
         if cur >= leaf_num {
             return false;
         }
-        let target = std::cmp::min(leaf_num, cur + k);
+        let target = std::cmp::min(leaf_num, cur.saturating_add(k));
         ep.server.tip = sim.chain.ancestor_at(ep.leaf, target).unwrap();
         true
     }
